@@ -188,13 +188,20 @@ const (
 	OpBefore      // register a BeforeFunc
 	OpRender      // A=kind (needs Render)
 	OpRedirect
-	OpStatus // note Status()/Written()/Size()
-	OpCookie // SetCookie
-	OpSeeSvc // note the application service seen through DI
+	OpStatus     // note Status()/Written()/Size()
+	OpCookie     // SetCookie
+	OpSeeSvc     // note the application service seen through DI
 	OpSeeHeaders // note the response header keys present so far
+	OpMapIface   // c.MapTo(value, (*Labeler)(nil)): a request-scoped interface mapping
+	OpSeeIface   // note the Labeler visible through DI
+	OpInvoke     // c.Invoke(func(Token) ...) from inside the handler: a nested resolution in request scope
+	OpApply      // c.Apply(&struct{... `inject`}) in request scope
 	OpReplaceCtx // install a derived cancellable context as the request's context (what a timeout middleware does); later cancels hit that one
 	opMax
 )
+
+// NumOps is the number of program operations (length of the op weight tables).
+const NumOps = int(opMax)
 
 // Act is one step of a handler program.
 type Act struct {
@@ -215,34 +222,41 @@ type WFault struct {
 	Keep int // bytes accepted for a short write
 }
 
+// Labeler is an interface type mapped (sometimes) in request scope with MapTo.
+type Labeler interface{ Label() string }
+
+type reqLabel string
+
+func (l reqLabel) Label() string { return string(l) }
+
 // Req is one simulated request together with everything recorded about it.
 type Req struct {
 	sched.Local
-	ID       int
-	Name     string
-	Method   string
-	Path     string
-	Query    string
-	Hdr      [][2]string
-	Progs    [][]Act // by chain position
-	Rets     []Ret   // by chain position
-	WPlan    []WFault
-	FSPlan   []FSFault
-	FSMut    []FSMutation
-	ETagOf   *Req // take If-None-Match from the ETag this earlier request of the same task was answered with
-	Flusher  bool
-	Deadline int64 // virtual ticks after start; 0 none
-	PlannedCancel int // CancelAt as generated (Local.CancelAt is consumed during the run)
-	Tag      string
-	Chain    int // chain the request is meant to run (route index, -1 not-found), -99 unknown
+	ID            int
+	Name          string
+	Method        string
+	Path          string
+	Query         string
+	Hdr           [][2]string
+	Progs         [][]Act // by chain position
+	Rets          []Ret   // by chain position
+	WPlan         []WFault
+	FSPlan        []FSFault
+	FSMut         []FSMutation
+	ETagOf        *Req // take If-None-Match from the ETag this earlier request of the same task was answered with
+	Flusher       bool
+	Deadline      int64 // virtual ticks after start; 0 none
+	PlannedCancel int   // CancelAt as generated (Local.CancelAt is consumed during the run)
+	Tag           string
+	Chain         int // chain the request is meant to run (route index, -1 not-found), -99 unknown
 
 	// Recorded.
-	W       *Spy
-	Events  []Ev
-	Escaped string
-	Served  bool
-	HTTP    *http.Request
-	started int64
+	W             *Spy
+	Events        []Ev
+	Escaped       string
+	Served        bool
+	HTTP          *http.Request
+	started       int64
 	AsyncCancelAt int // CIdx at which an asynchronous cancel landed; -1: none
 	rawCancel     func()
 	fsCalls       int
